@@ -26,6 +26,9 @@ pub enum Loc {
     /// `<load path>/<importer's sub-directory>`: a place no reading of the rule looks in
     DecoyLp1,
     DecoyLp2,
+    /// `w/w`: the root's directory name once more below it - where `dir/<url>` would land if the root
+    /// were named by its full path (`dir/root.scss`) while the loader's base is already `dir`
+    Nested,
 }
 
 #[derive(Clone, Debug, Serialize, Deserialize)]
@@ -71,6 +74,13 @@ pub struct Case {
     /// what an earlier load found, and where, must not influence a later one
     #[serde(default)]
     pub other: Option<Other>,
+    /// `@import` only: a plain-css url written BEFORE the judged url in the same rule
+    /// (`@import "//cdn/x", "u";`): how one url of a rule was classified must not carry over to the next
+    #[serde(default)]
+    pub plain_first: Option<String>,
+    /// real loaders only: open the root as `w/root.scss` from the top of the tree
+    #[serde(default)]
+    pub root_with_dir: bool,
 }
 
 #[derive(Clone, Debug, Serialize, Deserialize, PartialEq)]
@@ -133,6 +143,7 @@ impl Case {
             Loc::Lp2 => "lp2".into(),
             Loc::DecoyLp1 => format!("lp1/{}", self.sub()),
             Loc::DecoyLp2 => format!("lp2/{}", self.sub()),
+            Loc::Nested => "w/w".into(),
         }
     }
     fn path_of(&self, l: Loc, c: usize) -> String {
@@ -186,7 +197,10 @@ impl Case {
             LoadKind::LoadCss => format!("@use \"sass:meta\";\n@include meta.load-css(\"{}\");\n", self.url),
             LoadKind::Use => format!("@use \"{}\" as t;\n", self.url),
             LoadKind::Forward => format!("@forward \"{}\";\n", self.url),
-            _ => format!("@import \"{}\";\n", self.url),
+            _ => match &self.plain_first {
+                Some(p) => format!("@import {p}, \"{}\";\n", self.url),
+                None => format!("@import \"{}\";\n", self.url),
+            },
         }
     }
     fn build(&self) -> (SimFs, String) {
@@ -538,6 +552,7 @@ pub fn judge(case: &Case, stats: &mut Stats) -> (Judgement, Option<Outcome>) {
             chunk: case.chunk,
             budget: 2000,
             via: case.via,
+            root_with_dir: case.root_with_dir,
         });
         stats.compiled(&o);
         stats.inc(if case.via == Via::Fs { "probe:judged_through_fsloader_over_simfs" } else { "probe:judged_through_cargoloader_over_simfs" });
@@ -810,6 +825,8 @@ pub fn case_for(index: u64, tier: Tier, rng: &mut Rng) -> (Case, &'static str) {
                 foreign: vec![],
                 two: None,
                 other: None,
+                plain_first: None,
+                root_with_dir: i % 2 == 1,
             },
             "single_location_exhaustive",
         );
@@ -840,6 +857,8 @@ pub fn case_for(index: u64, tier: Tier, rng: &mut Rng) -> (Case, &'static str) {
                 foreign: vec![],
                 two: None,
                 other: None,
+                plain_first: None,
+                root_with_dir: i % 2 == 1,
             },
             "plain_css_arm",
         );
@@ -870,6 +889,8 @@ pub fn case_for(index: u64, tier: Tier, rng: &mut Rng) -> (Case, &'static str) {
                 foreign: vec![],
                 two: None,
                 other: None,
+                plain_first: None,
+                root_with_dir: i % 2 == 1,
             },
             "two_locations_use_exhaustive",
         );
@@ -900,6 +921,9 @@ pub fn case_for(index: u64, tier: Tier, rng: &mut Rng) -> (Case, &'static str) {
                 locs.push(Loc::DecoyLp2);
             }
         }
+    }
+    if !subdir && rng.chance(1, 5) {
+        locs.push(Loc::Nested);
     }
     let density = *rng.pick(&[1u64, 2, 4]); // eighths
     let mut present = vec![];
@@ -944,8 +968,8 @@ pub fn case_for(index: u64, tier: Tier, rng: &mut Rng) -> (Case, &'static str) {
         let n2 = cand_names(kind, "v").len();
         let mut p2 = vec![];
         for l in &locs {
-            if matches!(l, Loc::Base0) {
-                continue; // whether the root directory is searched is left open (R-c)
+            if matches!(l, Loc::Base0 | Loc::Nested) {
+                continue; // Base0: whether the root directory is searched is left open (R-c); Nested: never searched
             }
             if rng.chance(1, 2) {
                 continue;
@@ -973,6 +997,12 @@ pub fn case_for(index: u64, tier: Tier, rng: &mut Rng) -> (Case, &'static str) {
             foreign,
             two,
             other,
+            root_with_dir: rng.chance(1, 2),
+            plain_first: if kind == LoadKind::Import && rng.chance(1, 4) {
+                Some(rng.pick(&["\"//cdn.example/x\"", "\"http://h.example/y.css\"", "\"missing-plain.css\"", "url(z.css)"]).to_string())
+            } else {
+                None
+            },
             present_dirs: {
                 let mut v = vec![];
                 if rng.chance(1, 5) {
